@@ -1,0 +1,15 @@
+//! Verification hooks (feature `iggy_verif`, off by default). Nothing here runs,
+//! and nothing in the server changes behaviour, unless a harness arms a hook.
+
+pub use crate::command::ServerCommand;
+
+/// Puts the process-global allocators and counters back to what a freshly started
+/// server process has, so that a server can be restarted inside one test process.
+pub fn reset_process_globals() {
+    crate::streaming::systems::streams::verif_reset_current_stream_id();
+    crate::streaming::systems::users::verif_reset_user_id();
+    if let Some(tracker) = crate::streaming::cache::memory_tracker::CacheMemoryTracker::get_instance()
+    {
+        tracker.verif_reset_usage();
+    }
+}
